@@ -459,6 +459,8 @@ func genCid(c *Ctx) {
 			offer("cid/reenc/nonminimal-array-head", append([]byte{0x98, 0x02}, s.b[1:]...), true)
 			offer("cid/reenc/nonminimal-array-head16", append([]byte{0x99, 0x00, 0x02}, s.b[1:]...), true)
 			offer("cid/reenc/indefinite-array", append(append([]byte{0x9f}, s.b[1:]...), 0xff), true)
+			// the same signature and signed payload followed by a third envelope element
+			offer("cid/reenc/extra-element", append(append([]byte{0x83}, s.b[1:]...), 0xf6), true)
 		}
 		// the SigPayload map with its two entries in the other order, and with an indefinite-length map
 		sigN, _ := orig.LookupByIndex(0)
